@@ -41,6 +41,8 @@ pub const DEFECTS: &[&str] = &[
     "kb_on_unbound", "cnf_not_rsa", "cnf_e_missing", "cnf_n_not_string", "cnf_n_not_base64", "cnf_null",
     // two conditions together: the verifier was given no key-binding policy AND ...
     "strip_kb_no_policy", "strip_kb_drop_no_policy", "kb_on_unbound_no_policy",
+    // commitments that are "almost" the right hash: a comparison that is not plain string equality lets them through
+    "hash_prefix", "hash_empty", "hash_extended", "hash_case", "hash_padded", "hash_prefix_dropped_disclosure",
 ];
 
 pub fn generate(thorough: bool, seed: u64, em: &mut Emitter) {
@@ -112,6 +114,18 @@ pub fn generate(thorough: bool, seed: u64, em: &mut Emitter) {
                 let o = indep::ALGS.iter().find(|a| **a != sd_alg).unwrap();
                 kbc["sd_hash"] = json!(indep::hash(o, &prefix));
             }
+            "hash_prefix" | "hash_prefix_dropped_disclosure" => {
+                let full = indep::hash(sd_alg, &prefix);
+                kbc["sd_hash"] = json!(full[..r.below(full.len())].to_string());
+            }
+            "hash_empty" => kbc["sd_hash"] = json!(""),
+            "hash_extended" => kbc["sd_hash"] = json!(format!("{}{}", indep::hash(sd_alg, &prefix), r.pick(&["A", "=", " ", "\n"]))),
+            "hash_case" => {
+                let full = indep::hash(sd_alg, &prefix);
+                let flipped: String = full.chars().map(|c| if c.is_ascii_lowercase() { c.to_ascii_uppercase() } else { c.to_ascii_lowercase() }).collect();
+                kbc["sd_hash"] = json!(flipped);
+            }
+            "hash_padded" => kbc["sd_hash"] = json!(format!("{}=", indep::hash(sd_alg, &prefix))),
             "hash_missing" => {
                 kbc.as_object_mut().unwrap().remove("sd_hash");
             }
@@ -127,7 +141,7 @@ pub fn generate(thorough: bool, seed: u64, em: &mut Emitter) {
         // ---- edits after binding
         let mut presented = list.clone();
         match defect {
-            "drop_disclosure" => {
+            "drop_disclosure" | "hash_prefix_dropped_disclosure" => {
                 let p = r.below(presented.len());
                 presented.remove(p);
             }
